@@ -188,7 +188,28 @@ def run(tier):
                 v.violation(_key("extra-edge", kind, c), f"{text}: {kind} edge {a}->{b} order {o} weights {gw} joins no admissible pair of descriptors", {"instance": text})
             elif len(ww) != len(gw) or any(abs(x - y) > 1e-9 for x, y in zip(ww, gw)):
                 v.violation(_key("wrong-weight", kind, c), f"{text}: {kind} edges {a}->{b} carry {gw}, expected {ww}", {"instance": text})
-    v.coverage = {"states": states, "transitions": states, "traces_validated_against_impl": len(results), "instances": len(results), "nodes_compared": n_nodes,
+    # exporting the graph (core.stochastic_atom_graph_to_dot_string) is a read-only query: the graph object a user goes on with is the one that was built
+    n_export = 0
+    try:
+        from gbigsmiles.core import stochastic_atom_graph_to_dot_string as to_dot
+    except Exception:
+        to_dot = None
+    if to_dot is not None:
+        for text in ("{[][$|0.125|]CC[$|0.004|],[$|3|]CC(C)[$|1.5|];[$][H],[$|0.375|]O[]}|schulz_zimm(1000, 900)|",
+                     "C[>]{[>][<|0.333|]CC[>],[<]CO[>|0.015|];[<]F[<]}|schulz_zimm(500, 450)|[<]O"):
+            try:
+                sag = g.Molecule(text).gen_stochastic_atom_graph(expect_schulz_zimm_distribution=True)
+                snap = lambda: sorted((int(a), int(b), sorted((k, float(x)) for k, x in d.items() if isinstance(x, (int, float)))) for a, b, d in sag.graph.edges(data=True))
+                before = snap()
+                to_dot(sag.graph) if "graph" in getattr(to_dot, "__code__", to_dot).co_varnames[:1] else to_dot(sag)
+                after = snap()
+                n_export += 1
+                if before != after:
+                    diff = [(x, y) for x, y in zip(before, after) if x != y][:2]
+                    v.violation("C17:graph-changed-by-dot-export", f"{text}: after stochastic_atom_graph_to_dot_string the graph object carries other edge data, e.g. {diff}", {"instance": text})
+            except Exception as exc:
+                v.notes.append(f"dot export not exercised on {text}: {type(exc).__name__}: {exc}")
+    v.coverage = {"dot_exports_checked_for_purity": n_export, "states": states, "transitions": states, "traces_validated_against_impl": len(results), "instances": len(results), "nodes_compared": n_nodes,
                   "edges_compared": n_edges, "model_theorems": ["NothingLeavesEndGroups", "StaticSymmetric"], "samples": samples}
     v.assumptions = ["non-static edges of weight zero are not edges (ignored on both sides)", "node numbering: element order, repeat units before end groups, atoms in written order"]
     return v.finish()
